@@ -92,6 +92,12 @@ def sessionOp (st : DState) (op : String) (args : List String) : Option (DState 
         | none => "ok " ++ dumpState r.state
         | some e => "ERR " ++ toString e ++ " " ++ dumpState r.state
       some ({ st with weaver := some r.state }, out)
+  | "wpoke", [dx, dy] =>
+    match st.weaver, parseRat? dx, parseRat? dy with
+    | some s, some dx, some dy =>
+      let s' := s.poke dx dy
+      some ({ st with weaver := some s' }, "ok " ++ dumpState s')
+    | _, _, _ => some (st, bad)
   | "wslicei", [a, b, step] =>
     match st.weaver, parseInt? a, parseOpt? parseInt? b, step.toNat? with
     | some s, some a, some b, some step =>
